@@ -48,7 +48,9 @@ func (r *Raft) replyRPC(rpc *rpc) (resetTimer bool) {
 		}
 		verifRPC(r, rpc)
 		close(rpc.done)
-		return req.src == r.leader
+		// (a refused handshake is no contact from our leader, whatever node
+		// id the other side claims)
+		return r.cid == req.cid && r.nid == req.nid && req.src == r.leader
 	}
 
 	if trace {
